@@ -47,6 +47,8 @@ type c14Spec struct {
 	Dev   int // file-system failures as deviations
 }
 
+func deadOp(o SOp) SOp { o.Dead = true; return o }
+
 func sop(kind string, fid p9p.Fid, rest ...any) SOp {
 	o := SOp{Kind: kind, Fid: fid, Fid2: p9p.NOFID, Fail: -1}
 	for _, r := range rest {
@@ -140,6 +142,10 @@ func c14Hand() []c14Spec {
 		{Name: "create|stat", Setup: dir1, Tasks: [][]SOp{{sop("create", 1, "n", uint32(0644), p9p.ORDWR)}, {sop("stat", 1)}}},
 		{Name: "createdir|clunk", Setup: dir1, Tasks: [][]SOp{{sop("create", 1, "n", uint32(p9p.DMDIR|0755), p9p.OREAD)}, {sop("clunk", 1)}}},
 		{Name: "read,clunk|stat,walk", Setup: base, Tasks: [][]SOp{{sop("read", 1), sop("clunk", 1)}, {sop("stat", 1), sop("walk", 0, p9p.Fid(1), []string{"c"})}}},
+		// an operation issued with an already cancelled context, colliding with another
+		{Name: "read(cancelled)|stat", Setup: base, Tasks: [][]SOp{{deadOp(sop("read", 1))}, {sop("stat", 1)}}},
+		{Name: "write(cancelled)|clunk", Setup: base, Tasks: [][]SOp{{deadOp(sop("write", 1))}, {sop("clunk", 1)}}},
+		{Name: "walk(cancelled)|stat", Setup: dir1, Tasks: [][]SOp{{deadOp(sop("walk", 1, p9p.Fid(2), []string{"b"}))}, {sop("stat", 1)}}},
 		// collisions across two bound fids: a walk names the other fid as its target
 		{Name: "walk12|walk21/both-bound", Setup: two, Tasks: [][]SOp{{sop("walk", 1, p9p.Fid(2), []string{})}, {sop("walk", 2, p9p.Fid(1), []string{})}}},
 		{Name: "walk12[b]|walk21[d]/both-bound", Setup: two, Tasks: [][]SOp{{sop("walk", 1, p9p.Fid(2), []string{"b"})}, {sop("walk", 2, p9p.Fid(1), []string{"d"})}}},
@@ -193,7 +199,13 @@ func c14Scenario(sp c14Spec) *explore.Scenario {
 						st.clock++
 						rec.Call = st.clock
 						st.cur[name] = rec
-						rec.Res = applyOp(ctx, st.sess, o)
+						octx := ctx
+						if o.Dead {
+							c, cancel := context.WithCancel(ctx)
+							cancel()
+							octx = c
+						}
+						rec.Res = applyOp(octx, st.sess, o)
 						st.clock++
 						rec.Ret = st.clock
 						rec.Returned = true
@@ -277,6 +289,16 @@ func c14Check(state any, e *vsched.Exec) (string, []explore.Finding) {
 				continue
 			}
 			r := st.ops[i]
+			if r.Op.Dead && !r.Res.OK() {
+				// issued with a cancelled context and refused: no effect at all
+				used[i] = true
+				perm = append(perm, i)
+				if try(m) {
+					return true
+				}
+				perm = perm[:len(perm)-1]
+				used[i] = false
+			}
 			mc := newFidModelFrom(m)
 			exp := mc.step(r.Op, r.Failed)
 			if exp.Skip {
